@@ -405,7 +405,7 @@ def gen_kh_file(rng, clean):
         elif rng.random() < 0.12:
             # exact names plus a negated exact name, no wildcard: "host,!10.0.0.66 key" must not match that address
             h, a = rng.choice(HOSTS), rng.choice(ADDRS4 + HOSTS[:3])
-            pat = rng.choice(['%s,!%s' % (h, a), '!%s,%s' % (a, h), '%s,gw,!%s' % (h, a)])
+            pat = rng.choice(['%s,!%s' % (h, a), '!%s,%s' % (a, h), '%s,gw,!%s' % (h, a), '%s,!%s' % (a, h), '!%s,*.ex.com,%s' % (h, a)])
             aim = (h, a)
         else:
             pat = gen_patterns(rng, clean, empty_ok)
@@ -719,14 +719,14 @@ def kh_classify(lines, q, exp, got, fell_back):
     has_empty = any((not ln.get('skip')) and not ln.get('hashed') and '' in ln['pattern'].split(',') for ln in lines)
     if has_empty and (not addr or not host):
         return 'kh_empty_component'
+    if address_pattern_with_port(lines, q):
+        return 'kh_address_pattern_port'
     return 'kh_lookup'
 
 
 def address_pattern_with_port(lines, q):
-    """OpenSSH has no address semantics in known_hosts; asyncssh compares a bare address entry of a
-    pattern list numerically with the connection's address, whatever the port (its own test-suite pins
-    this: test_known_hosts 'Negative addr').  For a lookup with a port in a file with such an entry
-    there is no documented rule to judge by, so the oracle abstains (the correspondence does not)."""
+    """The lookup has a port and the file has an undecorated address entry (only used to name the class
+    of a failing input: such an entry must be consulted for the plain names only)."""
     return bool(q[2]) and any(
         (not ln.get('skip')) and not ln.get('hashed') and
         any(ref.parse_ip(c.lstrip('!')) is not None for c in ln['pattern'].split(',')) for ln in lines)
@@ -735,9 +735,6 @@ def address_pattern_with_port(lines, q):
 def kh_oracle(ctx, lines, text, q, got):
     """Direct oracle on a clean file: the implementation's answer against the documented rules."""
     host, addr, port = q
-    if address_pattern_with_port(lines, q):
-        ctx.count('abstained.address_pattern_with_port', group='oracle')
-        return True
     (et, ec, er), fell_back = ref.kh_lookup(lines, host, addr, port)
     if got is not None and (set(got[0]), set(got[1]), set(got[2])) == (et, ec, er):
         return True
@@ -824,7 +821,7 @@ def stage_known_hosts(ctx):
                                   f'reference selects lines {sorted(sel)}, ssh-keygen -F {name!r} reports {kg} on {text!r}')
                     # the implementation with the same single name (no address, no fallback wanted: compare selection)
                     got1, _ = impl_kh(text, host, '', port)
-                    if got1 is not None and not address_pattern_with_port(lines, (host, '', port)):
+                    if got1 is not None:
                         # undo the fallback for the comparison: selection for the exact name only
                         exp_t = {good[n]['key'] for n, m in kg.items() if m is None}
                         exp_c = {good[n]['key'] for n, m in kg.items() if m == 'cert-authority'}
@@ -1317,9 +1314,8 @@ def run(ctx):
         'lookups it is itself cross-checked against `ssh-keygen -F` (OpenSSH 9.2) on every run',
         'for a lookup with both a host name and an address the reference applies each pattern list to both names jointly (the '
         "property's wording: a negated match always excludes the line); OpenSSH itself looks the two names up separately",
-        'the oracle abstains where no documented rule exists: bare-address entries of known_hosts pattern lists looked up with a '
-        'port (asyncssh matches them numerically whatever the port, pinned by its own test-suite), CIDR entries in known_hosts '
-        '(asyncssh extension), option strings OpenSSH would refuse (unquoted values, unknown flags, duplicate environment names), '
+        'the oracle abstains where no documented rule exists: CIDR entries (with a slash) in known_hosts '
+        '(asyncssh extension; undecorated address entries are judged as the plain names they are), option strings OpenSSH would refuse (unquoted values, unknown flags, duplicate environment names), '
         'structurally malformed lines (unknown marker, missing fields, malformed hash) - the correspondence covers all of these',
         'int() in permitopen is modelled for ASCII digits, sign, underscores and surrounding blanks only',
         'not modelled: X.509 certificate/subject entries, the subject= option, scoped IPv6 addresses (%zone), OpenSSH '
